@@ -1,5 +1,5 @@
 From GV Require Import Pool.Model Pool.Observe Pool.Monitors Pool.Reduce Pool.Inv
-                       Pool.C03Size Pool.C03Pick Pool.C03Step Pool.InvC03.
+                       Pool.C03Size Pool.C03Pick Pool.C03Step Pool.InvC03 Pool.InvC03S.
 
 (* C03: the pool holds max(1, minSize) connections right after the first accepted
    resolver update (non-empty address list, working factory); only a load-routed
@@ -165,3 +165,51 @@ Example c03_negative_min :
   let ops := [(OpResolver 1 CfgVal, [])] in
   legal_b raw ops = true /\ monitor P03R raw (observe init_bal) (run raw init_bal ops) = false.
 Proof. vm_compute. split; reflexivity. Qed.
+
+(* C03S: the growth clause against the connection states REPORTED in the trace
+   (the monitor's own table, not the implementation's scStates): a Pick / Resume
+   creates a connection only when no pool connection was last reported Idle or
+   Connecting.  Every history, harness-legal or not, every oracle; no guard. *)
+Theorem C03S_holds : forall raw ops,
+  C03S_ok raw (observe init_bal) (run raw init_bal ops) = true.
+Proof. exact C03S_holds_proof. Qed.
+Print Assumptions C03S_holds.
+
+Example c03s_histories :
+  let raw := Some (mkConfig 1 3 1 false 0 0 false []) in
+  let pk0 := OpPick 0 0 false [] None false in
+  let pk1 := OpPick 1 0 false [] None false in
+  let ops := [(OpResolver 1 CfgVal, []); (OpConnState 0 Ready, []); (pk0, []); (pk0, []);
+              (OpConnState 1 Ready, []); (pk1, []); (OpGate true, []); (pk0, []); (OpGate false, []);
+              (pk1, []); (OpResume 0, [])] in
+  C03S_ok raw (observe init_bal) (run raw init_bal ops) = true /\
+  C03S_ok res_raw (observe init_bal) (run res_raw init_bal res_ops) = true.
+Proof. vm_compute. split; reflexivity. Qed.
+
+(* the monitor rejects growth while the only pool connection was last reported
+   Connecting although the observed scStates claims TransientFailure (the
+   Connecting report was ignored): the clause of c03_event that reads o_st
+   cannot see this, C03S does *)
+Example c03s_bad_ignored_report :
+  let sl c n := mkSlot c 0 n 0 0 false 0 in
+  let ob st npub refs sts slots pk :=
+    mkObs true 1 0 0 0 st [] [] sts refs slots 4294967295 [] false pk npub 0 true in
+  let o0 := observe init_bal in
+  let o1 := ob Idle 0%nat [(0%N, 0%nat)] [(0%N, Idle)] [sl 0%N 0%Z] (PErr false) in
+  let o2 := ob Ready 1%nat [(0%N, 0%nat)] [(0%N, Ready)] [sl 0%N 0%Z] (PSnap [0%nat]) in
+  let o3 := ob Ready 1%nat [(0%N, 0%nat)] [(0%N, Ready)] [sl 0%N 1%Z] (PSnap [0%nat]) in
+  let o4 := ob TransientFailure 2%nat [(0%N, 0%nat)] [(0%N, TransientFailure)] [sl 0%N 1%Z] (PErr true) in
+  let o5 := ob TransientFailure 2%nat [(0%N, 0%nat)] [(0%N, TransientFailure)] [sl 0%N 1%Z] (PErr true) in
+  let o6 := ob TransientFailure 2%nat [(0%N, 0%nat); (1%N, 1%nat)] [(0%N, TransientFailure); (1%N, Idle)]
+               [sl 0%N 1%Z; sl 1%N 0%Z] (PErr true) in
+  let pk := OpPick 0 0 false [] None false in
+  let tr := [mkEvent (OpResolver 1 CfgVal) [ONewSC 0 1; OConnect 0] RNone [] (Some o1);
+             mkEvent (OpConnState 0 Ready) [OUpdateState Ready (PSnap [0%nat])] RNone [] (Some o2);
+             mkEvent pk [] (RPicked 0) [] (Some o3);
+             mkEvent (OpConnState 0 TransientFailure) [OUpdateState TransientFailure (PErr true)] RNone [] (Some o4);
+             mkEvent (OpConnState 0 Connecting) [] RNone [] (Some o5);
+             mkEvent pk [ONewSC 1 1; OConnect 1] RNoSubConn [] (Some o6)] in
+  C03S_ok None o0 tr = false /\
+  existsb (fun kv => cstate_eqb (snd kv) Idle || cstate_eqb (snd kv) Connecting) (o_st o5) = false /\
+  c03s_from [] o0 (firstn 5 tr) = true.
+Proof. vm_compute. repeat split; reflexivity. Qed.
